@@ -46,4 +46,154 @@ theorem dsHdf_roundtrip (ds : DSpace) (nd : (ds.map (·.name)).Nodup)
   simp [groupOf, hm, List.replicate_succ]
   cases v; simp_all
 
+/-! ### Text format (rows of `to_csv` / `from_csv`) -/
+
+/-- The lists of a variable have the length its size announces (what `add_variable` enforces). -/
+structure DVarWF (v : DVar) : Prop where
+  size_pos : 1 ≤ v.size
+  lb_len : v.lb.length = v.size
+  ub_len : v.ub.length = v.size
+  val_len : ∀ l, v.value = some l → l.length = v.size
+
+theorem varRows_names (v : DVar) : (varRows v).map (·.name) = List.replicate v.size v.name := by
+  simp only [varRows, List.map_map]
+  apply List.ext_getElem (by simp)
+  intro i h1 h2
+  simp
+
+theorem varRows_length (v : DVar) : (varRows v).length = v.size := by simp [varRows]
+
+theorem dsToRows_cons (v : DVar) (t : DSpace) : dsToRows (v :: t) = varRows v ++ dsToRows t := by
+  simp [dsToRows]
+
+theorem uniqueNames_skip (n : String) (j : Nat) (rest acc : List String) (hn : n ∈ acc) :
+    uniqueNames (List.replicate j n ++ rest) acc (some n) = uniqueNames rest acc (some n) := by
+  induction j with
+  | zero => simp
+  | succ j ih =>
+    have hc : acc.contains n = true := by simpa using hn
+    simp only [List.replicate_succ, List.cons_append, uniqueNames, hc, Bool.not_true,
+      Bool.false_eq_true, if_false, ne_eq, not_true_eq_false]
+    exact ih
+
+theorem uniqueNames_block (n : String) (k : Nat) (hk : 1 ≤ k) (rest acc : List String)
+    (prev : Option String) (hn : n ∉ acc) :
+    uniqueNames (List.replicate k n ++ rest) acc prev = uniqueNames rest (acc ++ [n]) (some n) := by
+  obtain ⟨j, rfl⟩ : ∃ j, k = j + 1 := ⟨k - 1, by omega⟩
+  have hc : acc.contains n = false := by simpa using hn
+  simp only [List.replicate_succ, List.cons_append, uniqueNames, hc, Bool.not_false, if_true]
+  exact uniqueNames_skip n j rest (acc ++ [n]) (by simp)
+
+theorem uniqueNames_rows (ds : DSpace) (acc : List String) (prev : Option String)
+    (nd : (ds.map (·.name)).Nodup) (dj : ∀ n ∈ ds.map (·.name), n ∉ acc)
+    (hsize : ∀ v ∈ ds, 1 ≤ v.size) :
+    uniqueNames ((dsToRows ds).map (·.name)) acc prev = some (acc ++ ds.map (·.name)) := by
+  induction ds generalizing acc prev with
+  | nil => simp [dsToRows, uniqueNames]
+  | cons v t ih =>
+    simp only [List.map_cons, List.nodup_cons] at nd
+    rw [dsToRows_cons, List.map_append, varRows_names,
+      uniqueNames_block v.name v.size (hsize v (by simp)) _ acc prev (dj v.name (by simp))]
+    rw [ih (acc ++ [v.name]) (some v.name) nd.2 (by
+      intro n hn
+      simp only [List.mem_append, List.mem_singleton, not_or]
+      exact ⟨dj n (by simp [hn]), fun e => nd.1 (e ▸ hn)⟩) (fun w hw => hsize w (List.mem_cons_of_mem _ hw))]
+    simp
+
+theorem count_rows_other (ds : DSpace) (n : String) (h : n ∉ ds.map (·.name)) :
+    ((dsToRows ds).map (·.name)).count n = 0 := by
+  rw [List.count_eq_zero]
+  intro hm
+  obtain ⟨r, hr, e⟩ := List.mem_map.mp hm
+  simp only [dsToRows, List.mem_flatMap] at hr
+  obtain ⟨v, hv, hrv⟩ := hr
+  have : r.name = v.name := by
+    have hmem : r.name ∈ (varRows v).map (·.name) := List.mem_map.mpr ⟨r, hrv, rfl⟩
+    rw [varRows_names] at hmem
+    exact (List.mem_replicate.mp hmem).2
+  exact h (List.mem_map.mpr ⟨v, hv, by rw [← this, e]⟩)
+
+theorem map_getD_range {α : Type} (l : List α) (d : α) (n : Nat) (h : l.length = n) :
+    (List.range n).map (fun i => l.getD i d) = l := by
+  apply List.ext_getElem (by simp [h])
+  intro i h1 h2
+  simp [List.getD_eq_getElem?_getD, h2]
+
+theorem rowsToVars_spec (ds : DSpace) (pre : List Row)
+    (nd : (ds.map (·.name)).Nodup) (dj : ∀ n ∈ ds.map (·.name), n ∉ pre.map (·.name))
+    (wf : ∀ v ∈ ds, DVarWF v) :
+    rowsToVars (pre ++ dsToRows ds) (ds.map (·.name)) pre.length = some ds := by
+  induction ds generalizing pre with
+  | nil => simp [rowsToVars]
+  | cons v t ih =>
+    simp only [List.map_cons, List.nodup_cons] at nd
+    have hwf := wf v (by simp)
+    have hcount : ((pre ++ dsToRows (v :: t)).map (·.name)).count v.name = v.size := by
+      rw [dsToRows_cons, List.map_append, List.map_append, List.count_append, List.count_append,
+        varRows_names, count_rows_other t v.name nd.1]
+      have : (pre.map (·.name)).count v.name = 0 := List.count_eq_zero.mpr (dj v.name (by simp))
+      simp [this]
+    have hchunk : ((pre ++ dsToRows (v :: t)).drop pre.length).take v.size = varRows v := by
+      rw [List.drop_left, dsToRows_cons, List.take_left' (varRows_length v)]
+    have hrest := ih (pre ++ varRows v) nd.2 (by
+      intro n hn
+      simp only [List.map_append, List.mem_append, not_or, varRows_names]
+      refine ⟨dj n (by simp [hn]), ?_⟩
+      intro hm
+      exact nd.1 ((List.mem_replicate.mp hm).2 ▸ hn)) (fun w hw => wf w (List.mem_cons_of_mem _ hw))
+    have hrows : pre ++ dsToRows (v :: t) = (pre ++ varRows v) ++ dsToRows t := by
+      rw [dsToRows_cons, List.append_assoc]
+    have hk : pre.length + v.size = (pre ++ varRows v).length := by simp [varRows_length]
+    simp only [List.map_cons, rowsToVars, hcount, hchunk]
+    -- the chunk is not empty
+    obtain ⟨m, hm⟩ : ∃ m, v.size = m + 1 := ⟨v.size - 1, by have := hwf.size_pos; omega⟩
+    have hne : ∃ r0 tl, varRows v = r0 :: tl ∧ r0.isInt = v.isInt := by
+      refine ⟨_, _, by simp only [varRows, hm, List.range_succ_eq_map, List.map_cons]; rfl, rfl⟩
+    obtain ⟨r0, tl, hr0, hint⟩ := hne
+    rw [hr0, hk, ← hr0, hrows, hrest]
+    simp only [Option.some.injEq, List.cons.injEq, and_true]
+    have hlb : (varRows v).map (·.lb) = v.lb := by
+      simp only [varRows, List.map_map, Function.comp_def]
+      exact map_getD_range v.lb none v.size hwf.lb_len
+    have hub : (varRows v).map (·.ub) = v.ub := by
+      simp only [varRows, List.map_map, Function.comp_def]
+      exact map_getD_range v.ub none v.size hwf.ub_len
+    have hval : (if (varRows v).any (fun r => r.value.isNone) then none
+        else some ((varRows v).map (fun r => r.value.getD 0))) = v.value := by
+      cases hv : v.value with
+      | none =>
+        have : (varRows v).any (fun r => r.value.isNone) = true := by
+          rw [hr0]
+          have : r0.value = none := by
+            have hmem : r0 ∈ varRows v := by rw [hr0]; simp
+            simp only [varRows, hv, List.mem_map] at hmem
+            obtain ⟨i, _, rfl⟩ := hmem
+            rfl
+          simp [this]
+        simp [this]
+      | some l =>
+        have hany : (varRows v).any (fun r => r.value.isNone) = false := by
+          rw [List.any_eq_false]
+          intro r hr
+          simp only [varRows, hv, List.mem_map] at hr
+          obtain ⟨i, _, rfl⟩ := hr
+          simp
+        have hmap : (varRows v).map (fun r => r.value.getD 0) = l := by
+          simp only [varRows, hv, List.map_map, Function.comp_def, Option.getD_some]
+          exact map_getD_range l 0 v.size (hwf.val_len l hv)
+        simp [hany, hmap]
+    rw [hlb, hub, hval, hr0]
+    simp only [hint]
+
+/-- **Text round trip** on the row structure: grouping consecutive rows by name, counting them,
+    taking the bounds row by row, the type of the first row and the value unless a row prints
+    `None`, gives back the design space. -/
+theorem dsCsv_roundtrip (ds : DSpace) (nd : (ds.map (·.name)).Nodup) (wf : ∀ v ∈ ds, DVarWF v) :
+    dsFromRows (dsToRows ds) = some ds := by
+  unfold dsFromRows
+  rw [uniqueNames_rows ds [] none nd (by simp) (fun v hv => (wf v hv).size_pos)]
+  simp only [List.nil_append]
+  have := rowsToVars_spec ds [] nd (by simp) wf
+  simpa using this
+
 end GV.C11
